@@ -199,6 +199,13 @@ impl<'tcx> Cx<'tcx> {
                     }
                     variants.push(obj! {"name": J::s(v.name.to_string()), "fields": J::Arr(fields)});
                 }
+                if def.is_enum() {
+                    for (k, (_, d)) in def.discriminants(tcx).enumerate() {
+                        if let Some(J::Obj(vv)) = variants.get_mut(k) {
+                            vv.push(("discr", J::i(d.val as i128)));
+                        }
+                    }
+                }
                 let kind = if def.is_enum() {
                     "enum"
                 } else if def.is_union() {
@@ -889,6 +896,25 @@ impl<'tcx> Cx<'tcx> {
     }
 }
 
+/// Small generic helpers of core whose bodies the abstract interpreter analyses instead of axiomatising.
+fn full_external(path: &str) -> bool {
+    const PREFIXES: [&str; 12] = [
+        "core::option::Option::<T>::",
+        "core::result::Result::<T, E>::",
+        "<core::option::Option<T> as core::ops::Try>::",
+        "<core::result::Result<T, E> as core::ops::Try>::",
+        "<core::option::Option<T> as core::ops::FromResidual",
+        "<core::result::Result<T, F> as core::ops::FromResidual",
+        "core::option::Option::<&T>::",
+        "core::option::Option::<&mut T>::",
+        "<T as core::convert::From<T>>::from",
+        "<T as core::convert::Into<U>>::into",
+        "core::cmp::max",
+        "core::cmp::min",
+    ];
+    PREFIXES.iter().any(|p| path.starts_with(p))
+}
+
 fn unwind_json(u: &UnwindAction) -> J {
     match u {
         UnwindAction::Continue => J::s("continue"),
@@ -1312,7 +1338,7 @@ pub fn extract<'tcx>(tcx: TyCtxt<'tcx>, ast: Vec<J>, crate_attrs: Vec<J>) -> J {
             inst.def,
             InstanceKind::FnPtrShim(..) | InstanceKind::ClosureOnceShim { .. } | InstanceKind::ReifyShim(..) | InstanceKind::CloneShim(..)
         );
-        let full = (local && !is_shim) || small_shim;
+        let full = (local && !is_shim) || small_shim || (!is_shim && full_external(&path_of(tcx, did)));
         if !full && !cx.deep_external {
             continue;
         }
